@@ -258,6 +258,24 @@ CLAIMED["C13"] = dict(
     technique="Coq invariant proof over generator sequences + csv state-machine round-trip proof + CLI/byte-level differential correspondence",
     design="5/C13")
 
+CLAIMED["C12"] = dict(
+    text=("Model of add_precursor_quants (group lookup of each evidence row, missing / shared rows skipped, experiments), of "
+          "append_quant_columns (groups without precursors dropped, identified-precursor filter) and of the unique-peptide, "
+          "identification-type, summed-intensity / iBAQ and evidence-id generators. Theorems: a row is attached to group g iff it "
+          "has proteins and all are indexed to g; to at most one group; over all groups the number of attached precursors is at "
+          "most the number of rows (no row counted twice); a row is retained iff a row of the same peptide and charge in the group "
+          "passes the cutoff; the identification-type loop equals 'By MS/MS if some row passes, else By matching if some MBR row, "
+          "else empty'; total intensity = sum over experiments for any number of SILAC channels; iBAQ = intensity / max(1, #theoretical "
+          "peptides of the leading protein); evidence ids are the sorted ids of the counted rows; the table has one row per group with "
+          "precursors in reported order. Correspondence: the real add_precursor_quants + append_quant_columns (real column "
+          "classes) on generated evidence files, every cell compared."),
+    note=COMMON_NOTE + "Rows enter the model as the tool's parser yields them (C10). calc_post_err_prob_cutoff is a recorded oracle keyed by "
+         "the exact PEP list (its contract: C17). Intensities on a grid where float addition is exact; iBAQ floats compared through "
+         "correct rounding of the exact quotient. TMT and sequence-coverage columns and the experimental-design override are not modelled "
+         "(header/cell counts: C13). LFQ: C11. Axioms: none.",
+    technique="Coq proofs over a functional model of the quantification step + differential correspondence on generated evidence files",
+    design="5/C12")
+
 ALL = [f"C{i:02d}" for i in range(1, 21)]
 
 
